@@ -23,6 +23,7 @@ try:
     # rewrite the author's worktree path to ours
     demo_cmd = re.sub(r'/tmp/seedwt-C\d+[a-z]?', wt, demo_cmd)
     demo_cmd = demo_cmd.replace('$G ', G + ' ').replace(' go test', ' ' + G + ' test')
+    demo_cmd = re.sub(r'\s{2,}\(.*\)\s*$', '', demo_cmd)  # trailing prose in parentheses
     # some authors chain 'git apply' / 'cp demo' into the command: the script does those steps itself
     segs = [x.strip() for x in demo_cmd.split('&&')]
     segs = [x for x in segs if 'git apply' not in x and not x.startswith('cp ') and not x.startswith('git checkout') and 'git stash' not in x]
